@@ -118,7 +118,9 @@ class Gen:
         ut = self.r.choice([0, 1, 1, 1, 2, 3])
         pin = (self.so.get(k) if ut == 0 else self.user.get(k)) or self.so.get(k)
         c = self.r.random()
-        if c < 0.25:
+        if pin != '.' and len(pin) >= 2 * 255 and c < 0.4:
+            pin = pin + '78'          # a maximum-length PIN with one more byte
+        elif c < 0.25:
             pin = self.wrong_pin(pin)
         elif c < 0.3:
             pin = self.user.get(k, pin) if ut == 0 else self.so.get(k, pin)   # the other user's PIN
@@ -395,8 +397,8 @@ class Gen:
                     ('copy', 5), ('find', 8), ('probe', 12), ('restart', 1)],
         'find': [('open', 8), ('close', 3), ('login', 10), ('logout', 4), ('create', 30), ('destroy', 6), ('find', 30), ('setattr', 4),
                  ('copy', 4), ('restart', 2), ('closeall', 1)],
-        'pins': [('open', 12), ('close', 5), ('login', 30), ('logout', 10), ('initpin', 10), ('setpin', 15), ('inittoken', 6), ('restart', 8),
-                 ('sinfo_all', 4)],
+        'pins': [('open', 12), ('close', 5), ('login', 30), ('logout', 10), ('initpin', 10), ('setpin', 15), ('inittoken', 5), ('restart', 8),
+                 ('sinfo_all', 4), ('create', 5), ('getattr', 5), ('find', 3)],
     }
 
     def run(self, n):
